@@ -35,6 +35,7 @@ class M:
     kind: str = ''                    # spelling class, for signatures
     named: bool = False               # vocabulary entry (tabulated to 6 decimals)
     resolvable: bool = True           # library is expected to resolve it to a mass
+    avg_consistent: bool = True       # tabulated average mass agrees with the tabulated composition
 
     def val(self) -> Any:
         return canonical(self.text)
